@@ -2,7 +2,7 @@
    Statements only; proofs in Sem/CallsStrip.v, CallsScan.v, CallsStmt.v, CallsProofs.v,
    CallsExact.v, CallsMask.v, CallsWitness.v. *)
 From Ford Require Import Base.Str Gen.Intrinsics Lex.ReaderSpec Sem.Calls Sem.CallsSpec Sem.CallsDefs Sem.CallsStrip Sem.CallsScan
-  Sem.CallsStmt Sem.CallsProofs Sem.CallsExact Sem.CallsMask Sem.CallsWitness.
+  Sem.CallsStmt Sem.CallsProofs Sem.CallsBridge Sem.CallsGate Sem.CallsAssoc Sem.CallsExact Sem.CallsMask Sem.CallsWitness.
 
 (* utils.strip_paren on EVERY string with balanced parentheses (t ranges over all parenthesis trees,
    d over all levels): level 0 is the text with each group emptied to "()", level d+1 is one slice
@@ -72,11 +72,55 @@ Theorem C08_format_inert : forall lab sp body st, label_ok lab = true -> existsb
 Proof. exact format_inert. Qed.
 Print Assumptions C08_format_inert.
 
-(* exactness (partial): for every unit without ASSOCIATE construct whose statements reach the scan
-   (or are FORMAT), correct name tables, no user procedure spelled like an INTRINSICS entry
-   (region 3) and inner designator parts that are variables: unit.calls is duplicate-free and is,
-   as a set, what the unit invokes — labelled CALLs, computed GO TO selectors, bindings of the
-   same name on different types included *)
+(* the gate of the cascade, derived from the grammar: for every well-formed statement written as
+   segments (every form, CALL, IF...CALL, ASSOCIATE header; labelled or not) the rendered text passes
+   `CALL_RE.search(line) or SUBCALL_RE.search(line)` whenever there is a chain to collect from it *)
+Theorem C08_gate : forall st, seg_stmt st = true -> wf_stmt st = true ->
+  call_gate (render_stmt st) = true \/ stmt_chains st = [].
+Proof. exact gate_stmt. Qed.
+Print Assumptions C08_gate.
+
+(* ... and for CALL / IF ... CALL it is SUBCALL_RE that matches, whatever the target and its arguments *)
+Theorem C08_gate_call : forall st, wf_stmt st = true ->
+  match st with SCall _ _ | SIfCall _ _ _ _ => subcall_match (render_stmt st) <> None | _ => True end.
+Proof. exact gate_call. Qed.
+Print Assumptions C08_gate_call.
+
+(* the ASSOCIATE statement, for every association list (any number of pairs, selectors that are
+   designators with component chains and argument lists, or expressions), under any associations [a]
+   already in force: ASSOCIATE_RE matches, the selectors' references are collected under [a], and the
+   batch added binds every name to its selector's chain (a leading name of an enclosing construct
+   replaced) or to None for an expression *)
+Theorem C08_assoc_step : forall a calls sp pairs,
+  wf_stmt (SAssoc sp pairs) = true -> forallb (fun p => sel_ok (snd p)) pairs = true ->
+  line_step (a, calls) (render_stmt (SAssoc sp pairs)) =
+  Some (a ++ [new_batch a pairs], add_calls a calls (render_stmt (SAssoc sp pairs))).
+Proof. exact assoc_step. Qed.
+Print Assumptions C08_assoc_step.
+
+(* raw calls under ASSOCIATE: with associations [a] in force the chains collected from a statement are
+   those of C08_raw with a leading associate name replaced by its selector's chain, the rest appended;
+   chains headed by the name of an expression value are not recorded *)
+Theorem C08_raw_assoc : forall (a : assocs) st, seg_stmt st = true -> wf_stmt st = true -> plain_ok st = true ->
+  raw_calls a (render_stmt st) = subst_chains a (stmt_chains st).
+Proof. exact raw_assoc. Qed.
+Print Assumptions C08_raw_assoc.
+
+(* a whole executable part, ASSOCIATE constructs nested to any depth, names bound again in inner
+   constructs, END ASSOCIATE popping the last batch: the associations in force behind every statement
+   are the Spec's, the calls collected are those of the statements under them *)
+Theorem C08_unit_run : forall ss (a : assocs) calls,
+  forallb wf_stmt ss = true -> forallb plain_ok ss = true -> forallb step_ok ss = true -> nest_ok (length a) ss = true ->
+  run_lines (a, calls) (map render_stmt ss) = Some (fold_left env_after ss a, append_calls calls (model_chains a ss)).
+Proof. exact run_unit. Qed.
+Print Assumptions C08_unit_run.
+
+(* exactness (partial): for every unit — ASSOCIATE constructs included — whose statements fall
+   through the cascade branches in front of the gate (FORMAT_RE, END ASSOCIATE, ASSOCIATE_RE, GO TO:
+   evaluated on the text; the gate itself is C08_gate), with properly closed ASSOCIATE constructs,
+   correct name tables, no user procedure spelled like an INTRINSICS entry (region 3) and inner
+   designator parts that are variables: unit.calls is duplicate-free and is, as a set, what the unit
+   invokes *)
 Theorem C08_exact : forall tb ss srcs,
   map mask_quotes srcs = map render_stmt ss -> resolvable tb ss = true ->
   exists l, recorded tb srcs = Some l /\ NoDup l /\ forall p, In p l <-> In p (calls_of tb ss).
